@@ -888,9 +888,13 @@ def dense_shapes():
         "run of instances with an opening parenthesis for a value": "#%d=POINT(1.,(;\n",
         "run of complex instances without closing parenthesis": "#%d=(A1(2.5)BASE(7;\n",
         "run of instances with unreadable values and delimiters": "#%d=POINT(x,y);\n",
+        # an aggregate of aggregates is kept as raw text by SCLundefined::STEPread / PushPastImbedAggr
+        "run of instances that end inside a nested aggregate": "#%d=KINDS(" + ",".join(KINDS_VALS[:11]) + ",((1,2),(3;\n",
+        "run of instances that end after an element of an aggregate of aggregates": "#%d=KINDS(" + ",".join(KINDS_VALS[:11]) + ",((1,2),;\n",
     }
     for nm, rec in damaged.items():
-        sh[nm] = (lambda rec: lambda n: plain("".join(rec % (k + 10) for k in range(n // 4))))(rec)
+        per = 16 if "KINDS(" in rec else 4      # the long records cost more each: fewer of them per unit
+        sh[nm] = (lambda rec, per: lambda n: plain("".join(rec % (k + 10) for k in range(n // per))))(rec, per)
     return sh
 
 
